@@ -344,3 +344,68 @@ Proof.
     exfalso. exact (IHs b eq_refl eq_refl).
   - inversion Hskip as [|? ? Hv Hrest]; subst. cbn [app]. unfold mv_match in Hv. rewrite Hv. apply IH; assumption.
 Qed.
+
+(* ---------- matching never aborts (D41, D42): an alternative either accepts a text or declines it ---------- *)
+Ltac crush_noabort := repeat (match goal with
+          | |- context [match ?x with _ => _ end] => destruct x
+          | |- context [if ?x then _ else _] => destruct x
+          end; try discriminate).
+Lemma indexed_match_never_aborts : forall regs o r idx a b, indexed_match regs o r idx a b <> PAbort.
+Proof. intros. unfold indexed_match, mk. crush_noabort. Qed.
+Lemma numeric_arg_never_aborts : forall regs o a valid br l txt, numeric_arg regs o a valid br l txt <> PAbort.
+Proof. intros. unfold numeric_arg, mk. crush_noabort. Qed.
+Lemma try_operand_never_aborts : forall regs o txt, try_operand regs o txt <> PAbort.
+Proof.
+  intros regs o txt. unfold try_operand, mk. crush_noabort;
+  first [apply indexed_match_never_aborts | apply numeric_arg_never_aborts].
+Qed.
+Lemma try_set_never_aborts : forall regs ops txt, try_set regs ops txt <> PAbort.
+Proof.
+  intros regs ops txt. induction ops as [|o r IH]; cbn [try_set]; [discriminate|].
+  destruct (try_operand regs o txt) eqn:E; [discriminate|exact IH|exfalso; exact (try_operand_never_aborts _ _ _ E)].
+Qed.
+Lemma match_specific_ops_never_aborts : forall regs cfgs operands nulls acc b,
+  match_specific_ops regs cfgs operands nulls acc <> inr b.
+Proof.
+  intros regs cfgs. induction cfgs as [|c rest IH]; intros operands nulls acc b; cbn [match_specific_ops]; [discriminate|].
+  destruct (op_kind c);
+  try (destruct operands as [|t ts]; [discriminate|];
+       destruct (try_operand regs c t) eqn:E; [apply IH|discriminate|exfalso; exact (try_operand_never_aborts _ _ _ E)]).
+  destruct (try_operand regs c []) eqn:E; [apply IH|discriminate|exfalso; exact (try_operand_never_aborts _ _ _ E)].
+Qed.
+Lemma find_specific_never_aborts : forall regs sps operands count, find_specific regs sps operands count <> MAbort.
+Proof.
+  intros regs sps operands count. induction sps as [|sp rest IH]; cbn [find_specific]; [discriminate|].
+  destruct (negb _); [discriminate|].
+  destruct (match_specific_ops regs (sp_ops sp) operands 0 []) as [[[ms nulls]|]|b] eqn:E.
+  - destruct (_ && _); [discriminate|exact IH].
+  - exact IH.
+  - exfalso. exact (match_specific_ops_never_aborts _ _ _ _ _ _ E).
+Qed.
+Lemma match_sets_never_aborts : forall regs sets operands acc u, match_sets regs sets operands acc <> inr u.
+Proof.
+  intros regs sets. induction sets as [|s ss IH]; intros operands acc u; destruct operands as [|t ts]; cbn [match_sets]; try discriminate.
+  destruct (try_set regs (sort_ops s) t) eqn:E; [apply IH|discriminate|exfalso; exact (try_set_never_aborts _ _ _ E)].
+Qed.
+Theorem find_matching_never_aborts : forall regs pp operands, find_matching regs pp operands <> MAbort.
+Proof.
+  intros regs pp operands. unfold find_matching. destruct (_ && _); [discriminate|].
+  destruct (pp_specific pp) as [sps|].
+  - destruct (find_specific regs sps operands (pp_count pp)) eqn:E; [discriminate| |exfalso; exact (find_specific_never_aborts _ _ _ _ E)].
+    destruct (pp_sets pp) as [sm|]; [|discriminate]. unfold find_sets. destruct (negb _); [discriminate|].
+    destruct (match_sets regs (sm_sets sm) operands []) as [[ms|]|u] eqn:E2; [destruct (existsb _ _); discriminate|discriminate|].
+    exfalso. exact (match_sets_never_aborts _ _ _ _ _ E2).
+  - destruct (pp_sets pp) as [sm|]; [|discriminate]. unfold find_sets. destruct (negb _); [discriminate|].
+    destruct (match_sets regs (sm_sets sm) operands []) as [[ms|]|u] eqn:E2; [destruct (existsb _ _); discriminate|discriminate|].
+    exfalso. exact (match_sets_never_aborts _ _ _ _ _ E2).
+Qed.
+
+(* a listed combination that needs more operands than the statement has is passed over, not fatal: with the combinations
+   [c1 ...] (declining) followed by sp, the result is that of the remaining list *)
+Lemma find_specific_skips_declining : forall regs sp rest operands count,
+  Z.of_nat (length (sp_ops sp)) = count ->
+  match_specific_ops regs (sp_ops sp) operands 0 [] = inl None ->
+  find_specific regs (sp :: rest) operands count = find_specific regs rest operands count.
+Proof.
+  intros regs sp rest operands count Hc Hm. cbn [find_specific]. rewrite Hc, Z.eqb_refl. cbn [negb]. rewrite Hm. reflexivity.
+Qed.
